@@ -241,6 +241,42 @@ def value_comparisons(F, f, e, guards=()):
         a = value_comparisons(F, f, e["then"], guards + (((g, True),) if g else ()))
         b = value_comparisons(F, f, e["else"], guards + (((g, False),) if g else ()))
         return None if a is None or b is None else a + b
+    if k == "call" and len(guards) < 4:
+        # a predicate of the crate that is nothing but the comparison of its two parameters: improves::<LESS>(key, best)
+        h = next((h_ for h_ in (F.fn(n, required=False) for n in hir_callee(e)) if h_ is not None and h_.hir and not h_.is_closure), None)
+        params = h.hir.get("params", []) if h is not None else []
+        if h is None or len(params) != len(e["args"]) or not all(p_.get("k") == "bind" for p_ in params) or \
+                str((h.raw.get("sig") or {}).get("output")) != "bool":
+            return None
+        cs = value_comparisons(F, h, h.hir["body"], guards + (("<in>", True),))
+        if cs is None:
+            return None
+        byid = {p_["id"]: a for p_, a in zip(params, e["args"])}
+        targs = [str(a) for a in ((hir_strip(e["f"]).get("path") or {}).get("args") or [])]
+        caller_consts = set(short(y["path"]["res"].get("path", "")) for y in hir_walk(f.hir["body"]) if y.get("k") == "path" and
+                            y["path"]["res"].get("k") == "def" and "ConstParam" in str(y["path"]["res"].get("def_kind")))
+        out = []
+        for c in cs:
+            l_, r_ = byid.get(hir_local_id(hu.strip_all(c["l"]))), byid.get(hir_local_id(hu.strip_all(c["r"])))
+            if l_ is None or r_ is None:
+                return None          # compares something else than its parameters
+            gs = []
+            keep = True
+            for g_, tr in c["guards"][len(guards) + 1:]:
+                # the callee's const parameter: instantiated by a literal (that branch only) or by a const parameter of the caller
+                lits = [t_ for t_ in targs if t_ in ("true", "false")]
+                names = [t_ for t_ in targs if any(cc.endswith("::" + t_) for cc in caller_consts)]
+                if not lits and not names and len(targs) == 1 and re.match(r"^[A-Z][A-Z0-9_]*$", targs[0]):
+                    names = targs          # the callee's only generic argument, named like a const parameter of the caller
+                if len(lits) == 1 and not names:
+                    keep = keep and (lits[0] == "true") == tr
+                elif len(names) == 1 and not lits:
+                    gs.append((f.short + "::" + names[0], tr))
+                else:
+                    return None
+            if keep:
+                out.append(dict(op=c["op"], l=l_, r=r_, guards=guards + tuple(gs), ln=e.get("ln")))
+        return out or None
     if k == "bin" and e["op"] == "Eq":
         for pc, so in ((e["l"], e["r"]), (e["r"], e["l"])):
             pc = hu.strip_all(_resolve_local(f, pc))
@@ -341,7 +377,7 @@ def rule_t(F):
     mm = F.fn("stdlib::native_minmax")
     sel = None
     for x in hir_walk(mm.hir["body"]):
-        if x.get("k") not in ("if", "bin") or sel is not None:
+        if x.get("k") not in ("if", "bin", "call") or sel is not None:
             continue
         cs = value_comparisons(F, mm, x) or []
         t = [c for c in cs if any(tr for _g, tr in c["guards"])]
@@ -756,6 +792,9 @@ def rule_f(F):
                 return True
             if y.get("k") in ("mcall", "call") and any(n == "<value::Value as std::cmp::PartialOrd>::partial_cmp" for n in hir_callee(y)):
                 return True
+            if y.get("k") == "call" and "bool" == str(y.get("ty")) and len(y["args"]) == 2 and all("value::Value" in str(a.get("ty")) for a in y["args"]) \
+                    and any(F.fn(n, required=False) is not None for n in hir_callee(y)):
+                return True          # a predicate of the crate over two Values: must turn out to be the comparison
             if y.get("k") == "path" and y["path"]["res"].get("k") == "local" and y is not c:
                 r_ = resolve(y)
                 if r_ is not y and r_ is not None and r_.get("k") != "path" and "bool" in str(y.get("ty")) and compares_values(r_):
@@ -1385,6 +1424,28 @@ def rule_a(F):
             e = hu.strip_all(hu.let_inits(f)[hir_local_id(e)][0])      # `let values = t.iter().map(..); for .. in values.enumerate()`
         else:
             break
+    # `(0..).zip(t.iter())` / `t.iter().zip(0..)`: the position is counted by a range that starts at 0 (step 1)
+    zipped = None
+    h0 = hu.strip_all(head["args"][0])
+    if h0 is not None and h0.get("k") == "mcall" and h0["name"] == "zip" and h0["args"]:
+        def from_zero(z):
+            z = hu.strip_all(z)
+            if z is None or z.get("k") != "struct" or short(z["path"]["res"].get("path", "")).rsplit("::", 1)[-1] not in ("RangeFrom", "Range"):
+                return False
+            st_ = next((fl["e"] for fl in z["fields"] if fl["name"] == "start"), None)
+            return st_ is not None and hu.is_int_lit(st_) and hu.int_lit(st_) == 0
+
+        def rows_chain(z):
+            names = []
+            z = hu.strip_all(z)
+            while z is not None and z.get("k") == "mcall":
+                names.append(z["name"])
+                z = hu.strip_all(z["recv"])
+            return names
+        sides = [h0["recv"], h0["args"][0]]
+        for pos in (0, 1):
+            if from_zero(sides[pos]):
+                zipped = (pos, rows_chain(sides[1 - pos]))
     problems = []
     unclear = []
     # `.map(|(_, v)| *v)` in front of enumerate(): the rows are narrowed to their values first
@@ -1439,6 +1500,18 @@ def rule_a(F):
             val_id = vp["id"] if vp.get("k") == "bind" else None
         if idx_id is None or hir_local_id(a0) != idx_id:
             problems.append("the key of the inserted row is not enumerate's index as it is")
+    elif zipped is not None and zipped[1] == ["iter"]:
+        # the pattern is Some((i, (_, val))) or Some(((_, val), i)) with i drawn from 0..
+        how = "for (i, (_, val)) in (0..).zip(t.iter()) { out.insert(i, *val) }"
+        pos = zipped[0]
+        if outer and len(outer) == 2 and outer[pos].get("k") == "bind" and outer[1 - pos].get("k") == "tuple" and len(outer[1 - pos]["pats"]) == 2:
+            idx_id = outer[pos]["id"]
+            vp = outer[1 - pos]["pats"][1]
+            val_id = vp["id"] if vp.get("k") == "bind" else None
+        if idx_id is None or hir_local_id(a0) != idx_id:
+            problems.append("the key of the inserted row is not the position counted by the range as it is")
+    elif zipped is not None:
+        problems.append("the rows are visited through %s instead of the table's own iterator" % ".".join(reversed(zipped[1])))
     elif chain == ["enumerate", "map", "iter"] and len(maps) == 1:
         # the pattern is Some((i, val)) over the projected values
         how = "for (i, val) in t.iter().map(|(_, v)| *v).enumerate() { out.insert(i, val) }"
